@@ -1,6 +1,6 @@
 """Shared machinery for the per-property checks: Coq build, Print Assumptions parsing, correspondence evaluation
 inside Coq, evidence files, violation / known-finding reporting.  Runs under /venv/bin/python."""
-import json, os, re, subprocess, sys, time, hashlib, random, tempfile, shutil, glob
+import json, os, re, subprocess, sys, time, hashlib, random, tempfile, shutil, glob, fcntl
 
 VERIF = os.path.dirname(os.path.dirname(os.path.abspath(__file__)))
 COQ = os.path.join(VERIF, "coq")
@@ -79,6 +79,11 @@ class Check:
         self.exhaustive = None
         self.extra = {}
         self.scratch = tempfile.mkdtemp(prefix="qgverif_%s_" % pid)
+        # one check at a time touches coq/ (generated files, make, compiled libraries): serialise on a lock file
+        self._lock = open(os.path.join(COQ, ".check.lock"), "w")
+        t_lock = time.time()
+        fcntl.flock(self._lock, fcntl.LOCK_EX)
+        self.lock_wait_s = round(time.time() - t_lock, 2)
         kf = os.path.join(VERIF, "known_findings.json")
         self.known = json.load(open(kf)).get("findings", []) if os.path.exists(kf) else []
 
@@ -269,12 +274,16 @@ class Check:
             cov["exhaustive"] = bool(self.exhaustive)
         cov.update(self.extra)
         ev = {"property_id": self.pid, "tier": self.tier, "seed": self.seed, "level": level, "coverage": cov,
-              "assumptions": self.assume, "wall_s": round(time.time() - self.t0, 2), "violations": self.violations,
+              "assumptions": self.assume, "wall_s": round(time.time() - self.t0, 2), "lock_wait_s": self.lock_wait_s, "violations": self.violations,
               "known_findings_printed": self.known_printed}
         os.makedirs(os.path.join(VERIF, "evidence"), exist_ok=True)
         with open(os.path.join(VERIF, "evidence", "%s.json" % self.pid), "w") as fh:
             json.dump(ev, fh, indent=1, default=str)
         shutil.rmtree(self.scratch, ignore_errors=True)
+        try:
+            fcntl.flock(self._lock, fcntl.LOCK_UN); self._lock.close()
+        except Exception:  # noqa
+            pass
         print("%s %s: %d/%d obligations, %d correspondence/oracle evaluations (%d distinct non-trivial), %d violations, %.1fs"
               % (self.pid, self.tier, discharged, obligations, self.evaluations, len(self.distinct), self.violations, time.time() - self.t0))
         return 1 if self.violations else 0
